@@ -693,6 +693,11 @@ func (e *specEnv) callSpec(n *ECall) Val {
 			id = m.ID
 		}
 		return ex.fmtMediaOf(e.cur(), e.memOf(t)[0], t, id)
+	case "xmlInst", "xmlEnc", "lowerOf":
+		// uninterpreted views: xmlInst(doc) the text of the XML declaration as encoding/xml returns it,
+		// xmlEnc(inst) what charset.xmlEncoding extracts from it, lowerOf(s) strings.ToLower(s)
+		s := argv(0).(VSlice)
+		return ex.ufView(e.cur(), n.Fn, e.memOf(s)[0], s, n.Fn != "xmlInst")
 	case "pmt":
 		// pmt(s): the media type that mime.ParseMediaType extracts from s (assumed library function)
 		s := argv(0).(VSlice)
